@@ -1016,7 +1016,10 @@ impl OfferContents {
 				let tlv_stream = TlvStream::new(bytes)
 					.range(OFFER_TYPES)
 					.filter(|record| match record.r#type {
-						OFFER_METADATA_TYPE => false,
+						// The metadata carries the nonce and HMAC and thus cannot be covered by it.
+						// An offer verified using a nonce from a blinded path was built without
+						// any metadata, though, so a copy with some added must not verify.
+						OFFER_METADATA_TYPE => matches!(metadata, Metadata::RecipientData(_)),
 						OFFER_ISSUER_ID_TYPE => !metadata.derives_recipient_keys(),
 						_ => true,
 					})
